@@ -184,12 +184,35 @@ def run(w, rep, tier):
             mp[a] = v
         for a, v in zip(pos, prot.flat()):
             mp[a] = v
+        conds = ite_conditions(xd)
+        inst = "f(Rz.x) = Rz.f(x) for a rotation of the world frame about the vertical"
         with with_maxdeg(20):
-            xr = subs_syms(xd, mp)
-            want = cm.vertcat(cm.matmul(Rz, w.sl(xd, 0, 3)), w.sl(xd, 3, 6), w.param(w.call(Q, "product", w.elem(Q, qz), w.elem(Q, w.sl(xd, 6, 10)))), w.sl(xd, 10, 17))
-            verdict(rep, "C16.equivariance", "f(Rz.x) = Rz.f(x) for a rotation of the world frame about the vertical", xr, want, quats, W,
-                    "the model is not equivariant under rotations about the vertical")
+            # branch by branch (ground contact, drag direction): the selection conditions themselves must not change
+            # under the rotation, and on every selection the selected expressions must be equivariant
+            moved = [c for c in conds if decide(subs_syms(MatVal(1, 1, [[c]], "SX"), mp).cells[0][0], c, quats) != EQUAL]
+            if len(conds) > 7 or moved:
+                rep.incomplete("C16.equivariance", inst, "selection conditions %s" % ("depend on the heading: %s" % short(moved[0], 80) if moved else "are too many (%d)" % len(conds)), where=W)
+            else:
+                worst, detail = EQUAL, None
+                for mask in range(2 ** len(conds)):
+                    asg = {c: bool(mask >> i & 1) for i, c in enumerate(conds)}
+                    label = ",".join("%s=%s" % (short(c, 40), "T" if v else "F") for c, v in asg.items()) or "-"
+                    xb = assign_ites(xd, asg) if asg else xd
+                    xr = subs_syms(xb, mp)
+                    want = cm.vertcat(cm.matmul(Rz, w.sl(xb, 0, 3)), w.sl(xb, 3, 6), w.param(w.call(Q, "product", w.elem(Q, qz), w.elem(Q, w.sl(xb, 6, 10)))), w.sl(xb, 10, 17))
+                    v, d = decide_mat(xr, want, quats)
+                    if v == DIFFERENT:
+                        worst, detail = DIFFERENT, "on the selection [%s]: %s" % (label, d)
+                        break
+                    if v == UNKNOWN and worst == EQUAL:
+                        worst, detail = UNKNOWN, "on the selection [%s]: %s" % (label, d)
+                if worst == EQUAL:
+                    rep.ok("C16.equivariance", inst, fact={"selections": 2 ** len(conds)})
+                elif worst == DIFFERENT:
+                    rep.fail("C16.equivariance", inst, "the model is not equivariant under rotations about the vertical (a world-frame and a body-frame quantity are mixed): %s" % detail, where=W, fact={"difference": detail})
+                else:
+                    rep.incomplete("C16.equivariance", inst, "cannot decide %s" % detail, where=W)
     rep.floor("C16.deps", 4)
     rep.floor("C16.motor", 4)
     rep.floor("C16.newton", 3)
-    rep.undecided_clause("behaviour on the ground-contact branch and with aerodynamic drag (the if_else on |v| and on height)")
+    rep.undecided_clause("magnitudes on the ground-contact branch and with aerodynamic drag (the if_else on |v| and on height): only their equivariance about the vertical is decided")
